@@ -177,7 +177,7 @@ def _pseudo_select(s):
     predicate (the target and its alias are in scope too, but carry no alias the rewrite touches)"""
     if isinstance(s, ir.Update) and s.frm:
         return ir.Select(tuple(ir.Item(e) for _, e in s.sets), tuple(s.frm), s.where)
-    if isinstance(s, ir.Merge):
+    if isinstance(s, ir.Merge) and not s.more:
         return ir.Select(tuple(ir.Item(e) for _, e in tuple(s.upd) + tuple(s.ins)), (ir.FromGroup(s.src),), s.on)
     return None
 
@@ -254,7 +254,7 @@ def _pseudo_select(s):
     predicate (the target and its alias are in scope too, but carry no alias the rewrite touches)"""
     if isinstance(s, ir.Update) and s.frm:
         return ir.Select(tuple(ir.Item(e) for _, e in s.sets), tuple(s.frm), s.where)
-    if isinstance(s, ir.Merge):
+    if isinstance(s, ir.Merge) and not s.more:
         return ir.Select(tuple(ir.Item(e) for _, e in tuple(s.upd) + tuple(s.ins)), (ir.FromGroup(s.src),), s.on)
     return None
 
